@@ -986,4 +986,112 @@ Proof.
   intros. now apply pblock_overlap_pos.
 Qed.
 
+
+(* ------------------------------------------------------------------ *)
+(* evaluation block (evals/_deriv.py, eval.py, eval_deriv.py)           *)
+(* ------------------------------------------------------------------ *)
+Section EvalBlock.
+Variables (md : rowmode (F:=F)) (ef : F -> F) (o : comp).
+
+(* value contributed by one primitive alpha to component c at point p (norm x polynomial x Gaussian) *)
+Definition eval_kern (s : shell F) (p : point (F:=F)) (c : comp) (alpha : F) : F :=
+  let '(ax, ay, az) := c in
+  let '(e, (rx, ry, rz)) := prim_data K md ef s o p alpha in
+  norm_prim K (s_l s) c alpha * (nth ax rx 0 * nth ay ry 0 * nth az rz 0) * e.
+
+Lemma combine_map_r_prims {B} (phi : F -> B) (es : list F) (C : list (list F)) :
+  combine C (map phi es) = map (fun q : prim => (snd q, phi (fst q))) (combine es C).
+Proof. revert C; induction es as [|e es IH]; intros [|c C]; cbn; try reflexivity. now rewrite IH. Qed.
+
+Definition eval_entry (s : shell F) (p : point (F:=F)) (m c : nat) : F :=
+  ssum (eval_kern s p (cnth s c)) (prims s) m.
+
+Theorem eval_block_form s pts :
+  block_with K md (fun x => x) ef s o pts
+  = mk (nseg s) (fun m => mk (ncomp s) (fun c => map (fun p => eval_entry s p m c) pts)).
+Proof.
+  unfold block_with. cbv zeta. apply mk_ext. intros m Hm. apply mk_ext. intros c Hc.
+  rewrite map_map. apply map_ext. intros p. unfold pt_mat. cbv zeta. rewrite nth_mk by exact Hm.
+  set (G := fun vals : list F => fsum (map (fun '(crow, x) => nth m crow 0 * x) (combine (s_coeffs s) vals))).
+  assert (Hlen : length (pt_vals K md ef s o (norms K s) p) = ncomp s).
+  { unfold pt_vals. cbv zeta. rewrite map_length, combine_length, length_norms. apply Nat.min_id. }
+  rewrite (nth_indep _ 0 (G [])) by (rewrite map_length, Hlen; exact Hc).
+  rewrite (map_nth G). unfold pt_vals. cbv zeta.
+  rewrite (nth_map_combine _ (comps_of s) (norms K s) c (0, 0, 0)%nat [] [])
+    by (rewrite ?length_norms; auto).
+  fold (cnth s c). rewrite (nth_norms s c Hc). unfold eval_entry, eval_kern, ssum.
+  destruct (cnth s c) as [[ax ay] az]. rewrite combine_map_same, map_map.
+  unfold G. rewrite combine_map_r_prims, map_map. fold (prims s).
+  apply fsum_map_ext. intros [alpha row]. cbn [fst snd].
+  destruct (prim_data K md ef s o p alpha) as [e [[rx ry] rz]]. ring.
+Qed.
+
+Lemma mk1 {A} (f : nat -> A) : mk 1 f = [f 0%nat].
+Proof. reflexivity. Qed.
+
+(* 1. generalized = segmented *)
+Theorem eval_generalized_is_segmented s pts m : m < nseg s ->
+  block_with K md (fun x => x) ef (col_shell s m) o pts = [nth m (block_with K md (fun x => x) ef s o pts) []].
+Proof.
+  intros Hm. rewrite !eval_block_form, (nseg_col_shell s m Hm), mk1. rewrite nth_mk by exact Hm.
+  change (ncomp (col_shell s m)) with (ncomp s). f_equal. apply mk_ext. intros c Hc. apply map_ext. intros p.
+  unfold eval_entry. change (prims (col_shell s m)) with (combine (s_exps s) (col_rows m 0 (s_coeffs s))).
+  apply ssum_col.
+Qed.
+
+(* 2. order of the primitives *)
+Theorem eval_prim_perm_invariant s ps pts : Permutation (prims s) ps -> nseg (set_prims s ps) = nseg s ->
+  block_with K md (fun x => x) ef (set_prims s ps) o pts = block_with K md (fun x => x) ef s o pts.
+Proof.
+  intros HP HN. rewrite !eval_block_form, HN. change (ncomp (set_prims s ps)) with (ncomp s).
+  apply mk_ext. intros m Hm. apply mk_ext. intros c Hc. apply map_ext. intros p.
+  unfold eval_entry. rewrite prims_set_prims. symmetry. now apply ssum_perm.
+Qed.
+
+(* 3. splitting a primitive *)
+Theorem eval_prim_split s l1 l2 a r r1 r2 pts :
+  prims s = l1 ++ (a, r) :: l2 -> r = map2 (fadd K) r1 r2 -> length r1 = length r2 ->
+  block_with K md (fun x => x) ef (set_prims s (l1 ++ (a, r1) :: (a, r2) :: l2)) o pts
+  = block_with K md (fun x => x) ef s o pts.
+Proof.
+  intros Hp Hr Hl. rewrite !eval_block_form, (nseg_split s l1 l2 a r r1 r2 Hp Hr Hl).
+  change (ncomp (set_prims s (l1 ++ (a, r1) :: (a, r2) :: l2))) with (ncomp s).
+  apply mk_ext. intros m Hm. apply mk_ext. intros c Hc. apply map_ext. intros p.
+  unfold eval_entry. rewrite prims_set_prims, Hp. apply ssum_split. subst r. now apply nth_map2_add.
+Qed.
+
+(* 4. linearity *)
+Theorem eval_unnormalised_additive s C1 C2 p m c : same_shape C1 C2 ->
+  eval_entry (set_coeffs s (rows_add C1 C2)) p m c
+  = eval_entry (set_coeffs s C1) p m c + eval_entry (set_coeffs s C2) p m c.
+Proof. intros H. unfold eval_entry. rewrite !prims_set_coeffs. now apply ssum_add. Qed.
+
+Theorem eval_unnormalised_homogeneous s k C p m c :
+  eval_entry (set_coeffs s (rows_scale k C)) p m c = k * eval_entry (set_coeffs s C) p m c.
+Proof. unfold eval_entry. rewrite !prims_set_coeffs. apply ssum_scale. Qed.
+
+Theorem eval_scale_col_unnormalised s m0 k p m c :
+  eval_entry (scale_col s m0 k) p m c = colfac m0 k m * eval_entry s p m c.
+Proof. unfold eval_entry, scale_col. rewrite !prims_set_coeffs. apply ssum_scale_col. Qed.
+
+Lemma eval_entry_block s pts m c n d : m < nseg s -> c < ncomp s -> n < length pts ->
+  nth n (nth c (nth m (block_with K md (fun x => x) ef s o pts) []) []) 0 = eval_entry s (nth n pts d) m c.
+Proof.
+  intros Hm Hc Hn. rewrite eval_block_form. rewrite nth_mk by exact Hm. rewrite nth_mk by exact Hc.
+  rewrite (nth_indep _ 0 (eval_entry s d m c)) by (now rewrite map_length).
+  apply (map_nth (fun p => eval_entry s p m c)).
+Qed.
+End EvalBlock.
+
+(* the contraction norms of the single-column shells are the rows of the generalized shell's *)
+Theorem norm_cont_col_shell s m : m < nseg s ->
+  norm_cont K (col_shell s m) = [nth m (norm_cont K s) []].
+Proof.
+  intros Hm. rewrite !norm_cont_form, (nseg_col_shell s m Hm), mk1. rewrite nth_mk by exact Hm.
+  change (ncomp (col_shell s m)) with (ncomp s). f_equal. apply mk_ext. intros c Hc.
+  do 3 f_equal. unfold selfov. rewrite !overlap_block_kernel, !kblock_form.
+  rewrite !nth4_mk4 by (rewrite ?(nseg_col_shell s m Hm); assumption || lia).
+  change (ov_kern (col_shell s m) (col_shell s m)) with (ov_kern s s). apply kentry_col.
+Qed.
+
 End P.
